@@ -15,7 +15,7 @@ use std::sync::Arc;
 use std::time::Duration;
 
 #[derive(Clone, Copy, Debug, PartialEq)]
-enum Fault { RunExit(i32), None, PutOther, PutHttp, PutTooLarge, AllocFail, AllocErr, AllocHttp, SubmitNotFound, SubmitCannotCache, SubmitErr, RunErr, RunHttp, RunNotFound, RunExit1, OutUnwritable, SecondOutUnwritable }
+enum Fault { RunExit(i32), SubmitHttp, SubmitTooLarge, AllocTooLarge, RunTooLarge, None, PutOther, PutHttp, PutTooLarge, AllocFail, AllocErr, AllocHttp, SubmitNotFound, SubmitCannotCache, SubmitErr, RunErr, RunHttp, RunNotFound, RunExit1, OutUnwritable, SecondOutUnwritable }
 
 struct FakeDist { fault: Fault, extra_out: Option<String> }
 fn http() -> anyhow::Error { sccache::errors::HttpClientError("403 scripted".into()).into() }
@@ -30,17 +30,18 @@ impl dist::Client for FakeDist {
             Fault::AllocFail => Ok(AllocJobResult::Fail { msg: "no capacity".into() }),
             Fault::AllocErr => Err(anyhow::anyhow!("scheduler unreachable")),
             Fault::AllocHttp => Err(http()),
+            Fault::AllocTooLarge => Err(sccache::lru_disk_cache::Error::FileTooLarge.into()),
             _ => Ok(AllocJobResult::Success { job_alloc: JobAlloc { auth: "a".into(), job_id: JobId(7), server_id: ServerId::new("127.0.0.1:1".parse().unwrap()) }, need_toolchain: true }),
         }
     }
     async fn do_get_status(&self) -> sccache::errors::Result<dist::SchedulerStatusResult> { Err(anyhow::anyhow!("unused")) }
     async fn do_submit_toolchain(&self, _j: JobAlloc, _tc: Toolchain) -> sccache::errors::Result<SubmitToolchainResult> {
         match self.fault { Fault::SubmitNotFound => Ok(SubmitToolchainResult::JobNotFound), Fault::SubmitCannotCache => Ok(SubmitToolchainResult::CannotCache),
-                           Fault::SubmitErr => Err(anyhow::anyhow!("connection reset")), _ => Ok(SubmitToolchainResult::Success) }
+                           Fault::SubmitErr => Err(anyhow::anyhow!("connection reset")), Fault::SubmitHttp => Err(http()), Fault::SubmitTooLarge => Err(sccache::lru_disk_cache::Error::FileTooLarge.into()), _ => Ok(SubmitToolchainResult::Success) }
     }
     async fn do_run_job(&self, _j: JobAlloc, _c: dist::CompileCommand, outputs: Vec<String>, _i: Box<dyn dist::pkg::InputsPackager>) -> sccache::errors::Result<(RunJobResult, PathTransformer)> {
         match self.fault {
-            Fault::RunErr => Err(anyhow::anyhow!("server died")), Fault::RunHttp => Err(http()), Fault::RunNotFound => Ok((RunJobResult::JobNotFound, PathTransformer::new())),
+            Fault::RunErr => Err(anyhow::anyhow!("server died")), Fault::RunHttp => Err(http()), Fault::RunTooLarge => Err(sccache::lru_disk_cache::Error::FileTooLarge.into()), Fault::RunNotFound => Ok((RunJobResult::JobNotFound, PathTransformer::new())),
             f => {
                 use std::os::unix::process::ExitStatusExt;
                 let code = if let Fault::RunExit(c) = f { c } else { 0 };
@@ -90,7 +91,7 @@ fn main() {
     let env: Vec<(OsString, OsString)> = vec![("PATH".into(), "/usr/bin:/bin".into())];
     use Fault::*;
     let mut n = 0;
-    for fault in [None, PutOther, PutHttp, PutTooLarge, AllocFail, AllocErr, AllocHttp, SubmitNotFound, SubmitCannotCache, SubmitErr, RunErr, RunHttp, RunNotFound, RunExit(1), RunExit(2), RunExit(42), RunExit(127), RunExit(255), OutUnwritable, SecondOutUnwritable] {
+    for fault in [None, PutOther, PutHttp, PutTooLarge, AllocFail, AllocErr, AllocHttp, AllocTooLarge, SubmitNotFound, SubmitCannotCache, SubmitErr, SubmitHttp, SubmitTooLarge, RunErr, RunHttp, RunTooLarge, RunNotFound, RunExit(1), RunExit(2), RunExit(42), RunExit(127), RunExit(255), OutUnwritable, SecondOutUnwritable] {
         n += 1;
         let src = cwd.join(format!("t{}.c", n)); std::fs::write(&src, format!("int f{}(void){{return {};}}\n", n, n)).unwrap();
         let obj = cwd.join(format!("t{}.o", n));
@@ -121,6 +122,10 @@ fn main() {
         if res.0.starts_with("CacheMiss ok=true") && !(file == "REMOTE" || file == "ELF") { fails.push(fail_json("success_without_output", &format!("{}: reported success but the object file is {}", name, file), &[line.clone()], "")); }
         if file == "OTHER" { fails.push(fail_json("partial_output_left", &format!("{}: a foreign/partial object file was left behind", name), &[line.clone()], "")); }
         if res.0 == "PANIC" { fails.push(fail_json("panic", &name, &[line.clone()], "")); }
+        // ---- monitor (statement of C13): a 4xx answer or a too-small local toolchain cache is an sccache error; every other failure falls back
+        let reported = name.ends_with("Http") || name.ends_with("TooLarge");
+        if reported && !res.0.starts_with("Err(") { fails.push(fail_json("rejected_request_not_reported", &format!("{}: must be reported as an sccache error but the result is {} (object {}, local compiler ran {}x)", name, res.0, file, ran), &[line.clone()], "")); }
+        if !reported && name != "None" && !name.starts_with("RunExit") && !(res.0 == "CacheMiss ok=true" && file == "ELF" && ran == 1) { fails.push(fail_json("no_fallback", &format!("{}: a failed distributed job must fall back to the local compiler but the result is {} (object {}, local compiler ran {}x)", name, res.0, file, ran), &[line.clone()], "")); }
         if let Fault::RunExit(c) = fault { if res.0 != format!("CompileFailed code=Some({})", c) { fails.push(fail_json("remote_exit_status_lost", &format!("remote compiler exited with {} but the result is {}", c, res.0), &[line.clone()], "")); } }
     }
     std::fs::write(&a[2], format!("{{\"cases\":{},\"monitor_failures\":[{}],\"samples\":[{}]}}", n, fails.join(","), samples.iter().map(|s| jstr(s)).collect::<Vec<_>>().join(","))).unwrap();
